@@ -181,6 +181,69 @@ class SugarGen:
         return self.rows
 
 
+def gen_block_exit_sheet(rng: random.Random) -> list[dict]:
+    """a block (possibly holding nested blocks / loops) that ends with SEVERAL still-unconnected exits
+    — ordinary ones and hard ones, at different nesting depths — followed by a row whose edge names
+    the block.  The block is entered from an action row, so nothing leading into it has a loose exit."""
+    rows = [{"row_id": "s0", "type": "send_message", "from": "start", "message_text": "hello"},
+            {"row_id": "B", "type": "begin_block", "from": "s0"},
+            {"row_id": "x1", "type": "send_message", "from": "", "message_text": "in block"}]
+    n = [0]
+
+    def nid(p):
+        n[0] += 1
+        return f"{p}{n[0]}"
+
+    def multi_exit(prev):
+        """a decision with several loose ends"""
+        kind = rng.choice(["wait", "split", "wait"])
+        w = nid("w")
+        if kind == "wait":
+            rows.append({"row_id": w, "type": "wait_for_response", "from": prev, "no_response": rng.choice(["", "60"])})
+        else:
+            rows.append({"row_id": w, "type": "split_by_value", "from": prev, "message_text": "@fields.mood"})
+        for word in rng.sample(["yes", "no", "maybe", "later"], rng.randint(1, 3)):
+            r = rng.random()
+            if r < 0.35:
+                a = nid("a")
+                rows.append({"row_id": a, "type": "send_message", "from": w, "condition": word, "message_text": f"answer {word}"})
+                if rng.random() < 0.3:
+                    rows.append({"row_id": "", "type": "hard_exit", "from": a})
+            elif r < 0.55:
+                rows.append({"row_id": "", "type": "loose_exit", "from": w, "condition": word})
+            elif r < 0.75:
+                rows.append({"row_id": "", "type": "hard_exit", "from": w, "condition": word})
+        return w
+
+    def nested(depth, prev):
+        kind = rng.choice(["block", "loop", "plain"]) if depth < 2 else "plain"
+        if kind == "plain":
+            return multi_exit(prev)
+        bid = nid("I")
+        if kind == "block":
+            rows.append({"row_id": bid, "type": "begin_block", "from": prev})
+            end = "end_block"
+        else:
+            rows.append({"row_id": bid, "type": "begin_for", "from": prev, "loop_variable": f"v{depth}", "message_text": rng.choice(["a;", "a;b"])})
+            end = "end_for"
+        first = nid("f")
+        rows.append({"row_id": first, "type": "send_message", "from": "", "message_text": "nested"})
+        nested(depth + 1, first if rng.random() < 0.5 else "")
+        if rng.random() < 0.4:
+            nested(depth + 1, "")
+        rows.append({"row_id": "", "type": end})
+        return bid
+
+    last = nested(0, "x1" if rng.random() < 0.5 else "")
+    if rng.random() < 0.4:
+        nested(0, last if last.startswith("I") and rng.random() < 0.5 else "")
+    rows.append({"row_id": "", "type": "end_block"})
+    rows.append({"row_id": "R", "type": "send_message", "from": "B", "message_text": "after the block"})
+    if rng.random() < 0.5:
+        rows.append({"row_id": "R2", "type": "send_message", "from": "R", "message_text": "the end"})
+    return rows
+
+
 def gen_sugar_sheet(rng: random.Random, budget: int) -> list[dict]:
     return SugarGen(rng, budget).build()
 
